@@ -1,5 +1,5 @@
 import Py4hwV.Proofs.C13Mul
-import Py4hwV.Proofs.C13Add
+import Py4hwV.Proofs.C13AddUlp
 import Py4hwV.Helper.Spec
 /-
   C13 — Single-precision floating-point blocks meet IEEE-754 within stated error bounds.
@@ -104,12 +104,12 @@ theorem inttofp_oracle (a : Nat) (ha : a < 2^32) : i2fOk a (inttofp a).1 (inttof
 
 example : inttofp 16777217 = (0x4B800000, 1) ∧ inttofp (2^32 - 3) = (0xC0400000, 0) := by decide +kernel
 
-/-- FPtoInt_SP on a normal operand `x`: never `denorm`; for |x| < 2^31: not invalid, `r = trunc(x)` (two's complement);
-    for |x| ≥ 2^31: invalid.  The p_lost output is what the code computes: discarded bits OR an odd integer part. -/
+/-- FPtoInt_SP on a normal operand `x`: never `denorm`; for |x| < 2^31: not invalid, `r = trunc(x)` (two's complement) and
+    `p_lost = 1` exactly when truncation discarded a non-zero bit; for |x| ≥ 2^31: invalid.  Full statement, no exception
+    (since /repo commit 87c4dcb). -/
 theorem fptoint_spec (a : Nat) (ha : normal a = true) :
     (fptoint a).denorm = 0 ∧
-    (fitsInt a = true → (fptoint a).invalid = 0 ∧ (fptoint a).r = f2iR a ∧
-        (fptoint a).p_lost = b2n (f2iLost a || decide (mag a / 2^149 % 2 = 1))) ∧
+    (fitsInt a = true → (fptoint a).invalid = 0 ∧ (fptoint a).r = f2iR a ∧ (fptoint a).p_lost = b2n (f2iLost a)) ∧
     (fitsInt a = false → (fptoint a).invalid = 1) := by
   obtain ⟨_, h1, h2⟩ := normal_exp a ha
   by_cases hs : expOf a ≤ 126
@@ -121,28 +121,16 @@ theorem fptoint_spec (a : Nat) (ha : normal a = true) :
     · obtain ⟨c1, c2, c3⟩ := fptoint_big a (by omega) h2
       exact ⟨c1, fun h => by rw [c3] at h; exact absurd h (by decide), fun _ => c2⟩
 
-/- FULL STATEMENT for p_lost (FALSE of the current code, see `fptoint_plost_counterexample`):
-     ∀ a, normal a → fitsInt a → (fptoint a).p_lost = b2n (f2iLost a)
-   `pos_ext_p_lost = (hw_range(shifted, 32, 0) != 0)` (arithmetic_fp.py:273) takes 33 bits: bit 32 is the least
-   significant bit of the INTEGER part, so an odd integral value raises p_lost although nothing was discarded.
-   Proved below under the forced hypothesis "not (integral and odd)" = complement of `FpSpec.f2iOddClass`. -/
-theorem fptoint_plost_partial (a : Nat) (ha : normal a = true) (hf : fitsInt a = true) (hc : f2iOddClass a = false) :
-    (fptoint a).p_lost = b2n (f2iLost a) := by
-  rw [((fptoint_spec a ha).2.1 hf).2.2]
-  unfold f2iOddClass at hc
-  rw [hf] at hc
-  cases hl : f2iLost a
-  · rw [hl] at hc
-    simp only [Bool.true_and, Bool.not_false, decide_eq_false_iff_not] at hc
-    simp [hc]
-  · simp
+/- HISTORY (before /repo commit 87c4dcb "FPtoInt_SP precision-lost flag looks at the 32 discarded bits only"):
+   `pos_ext_p_lost = (hw_range(shifted, 32, 0) != 0)` took 33 bits, bit 32 being the least significant bit of the INTEGER part,
+   so the model then satisfied only
+     fptoint_spec (old)            … (fptoint a).p_lost = b2n (f2iLost a || decide (mag a / 2^149 % 2 = 1))
+     fptoint_plost_partial (old)   normal a → fitsInt a → f2iOddClass a = false → (fptoint a).p_lost = b2n (f2iLost a)
+     fptoint_plost_counterexample (old)  fptoint 0x3F800000 = ⟨1, 1, 0, 0⟩      -- 1.0 ↦ r = 1 with p_lost = 1
+   `FpSpec.f2iOddClass` stays as the class of the FIXED finding C13-fptoint-plost-odd-integer: a failure inside it is a regression. -/
 
-theorem fptoint_plost_counterexample :
-    normal 0x3F800000 = true ∧ fitsInt 0x3F800000 = true ∧ f2iLost 0x3F800000 = false ∧
-    fptoint 0x3F800000 = ⟨1, 1, 0, 0⟩ := by decide +kernel          -- 1.0 ↦ r = 1 with p_lost = 1
-
-/-- the oracle of the harness, outside the finding's class -/
-theorem fptoint_oracle (a : Nat) (ha : normal a = true) (hc : f2iOddClass a = false) :
+/-- the oracle of the harness accepts the model's outputs on every normal operand -/
+theorem fptoint_oracle (a : Nat) (ha : normal a = true) :
     f2iCheck a (fptoint a).r (fptoint a).p_lost (fptoint a).denorm (fptoint a).invalid = "" := by
   obtain ⟨h1, h2, h3⟩ := fptoint_spec a ha
   unfold f2iCheck
@@ -150,9 +138,12 @@ theorem fptoint_oracle (a : Nat) (ha : normal a = true) (hc : f2iOddClass a = fa
   simp only [ne_eq, not_true_eq_false, if_false]
   cases hf : fitsInt a
   · simp [h3 hf]
-  · obtain ⟨c1, c2, _⟩ := h2 hf
-    simp [c1, c2, fptoint_plost_partial a ha hf hc]
+  · obtain ⟨c1, c2, c3⟩ := h2 hf
+    simp [c1, c2, c3]
 
+-- the former witnesses of the finding: odd integral values no longer raise p_lost
+example : fptoint 0x3F800000 = ⟨1, 0, 0, 0⟩ ∧ fptoint 0x40400000 = ⟨3, 0, 0, 0⟩ ∧ fptoint 0xBF800000 = ⟨0xFFFFFFFF, 0, 0, 0⟩
+    ∧ f2iOddClass 0x3F800000 = true ∧ f2iOddClass 0x40400000 = true ∧ f2iOddClass 0xBF800000 = true := by decide +kernel   -- 1.0, 3.0, −1.0
 example : fptoint 0xC0200000 = ⟨0xFFFFFFFE, 1, 0, 0⟩ ∧ fptoint 0x4F000000 = ⟨0x80000000, 0, 0, 1⟩ := by decide +kernel   -- −2.5, 2^31
 
 /-! ## (3) multiplier -/
@@ -171,11 +162,36 @@ example : fpmul 0x3FC00000 0x40100000 = 0x40580000 ∧ prodNormal 0x3FC00000 0x4
 
 /-! ## (4) adder -/
 
-/-- the exponent difference is a FIVE-bit wire: 2^32 + 1.5 gives 1.0737·10^10 (exponent gap 32 wraps to 0) -/
-theorem fpadd_gap32_counterexample :
-    normal 0x4F800000 = true ∧ normal 0x3FC00000 = true ∧ sumNormal 0x4F800000 0x3FC00000 = true ∧
-    fpadd 0x4F800000 0x3FC00000 = 0x50200000 ∧ addOk 0x4F800000 0x3FC00000 0x50200000 = false ∧
-    gapClass 0x4F800000 0x3FC00000 = true := by decide +kernel
+/-- **FPAdder_SP**: both operands normal and the exact sum normal ⇒ the result is a normal encoding, has the sign of the
+    exact sum, and differs from it by less than two units in the last place of the operand of larger magnitude
+    (`addOk`; in units of 2^-149: |sval r − (sval a + sval b)| < 2·2^(max(ea,eb)−1)).  EVERY exponent gap (since /repo
+    commit f8136d7 the exponent difference is kept on 8 bits).  Proof: `fpadd_swap`, `fpaddCore_eq`, `add_exact`
+    (alignment truncation < 1 ulp), `norm_mant/norm_exp/norm_value` (normalisation by the leading-zero count, bit 0
+    dropped only when the sum carried out), exponent range from the exact sum being normal, sign case split. -/
+theorem fpadd_sign_ulp (a b : Nat) (ha : normal a = true) (hb : normal b = true) (hs : sumNormal a b = true) :
+    addOk a b (fpadd a b) = true := by
+  obtain ⟨a32, a1, a2⟩ := normal_exp a ha
+  obtain ⟨b32, b1, b2⟩ := normal_exp b hb
+  exact fpadd_sign_ulp' a b a32 b32 a1 a2 b1 b2 hs
+
+/-- readable form of `addOk` -/
+theorem fpadd_sign_ulp_iff (a b : Nat) (ha : normal a = true) (hb : normal b = true) (hs : sumNormal a b = true) :
+    normal (fpadd a b) = true ∧ ((sval (fpadd a b) < 0) ↔ (sval a + sval b < 0)) ∧
+    (sval (fpadd a b) - (sval a + sval b)).natAbs < 2 * 2^(max (expOf a) (expOf b) - 1) := by
+  have h := fpadd_sign_ulp a b ha hb hs
+  unfold addOk sum ulpMax at h
+  simp only [Bool.and_eq_true, decide_eq_true_eq] at h
+  exact ⟨h.1.1, by rw [h.1.2], h.2⟩
+
+/- HISTORY (before /repo commit f8136d7 "FPAdder_SP keeps the full 8-bit exponent difference"): `ediff` was a FIVE-bit wire, the
+   alignment shift wrapped for exponent gaps ≥ 32 and the model then satisfied
+     fpadd_gap32_counterexample (old)   fpadd 0x4F800000 0x3FC00000 = 0x50200000     -- 2^32 + 1.5 ↦ 1.0737·10^10
+   `FpSpec.gapClass` stays as the class of the FIXED finding C13-fpadd-exponent-gap-ge-32: a failure inside it is a regression. -/
+
+-- the former witness: 2^32 + 1.5 = 2^32 (1.5 is below half an ulp of 2^32 and truncated away)
+example : normal 0x4F800000 = true ∧ normal 0x3FC00000 = true ∧ sumNormal 0x4F800000 0x3FC00000 = true ∧
+    gapClass 0x4F800000 0x3FC00000 = true ∧ fpadd 0x4F800000 0x3FC00000 = 0x4F800000 ∧
+    addOk 0x4F800000 0x3FC00000 0x4F800000 = true := by decide +kernel
 
 /-- FPAdder_SP gives the same word with its operands swapped whenever the magnitudes differ or the operands are equal … -/
 theorem fpadd_comm_fields (a b : Nat) (ha : a < 2^32) (hb : b < 2^32)
@@ -205,42 +221,21 @@ theorem fpadd_comm (a b : Nat) (ha : normal a = true) (hb : normal b = true) (hs
       rcases this with ⟨h1, h2⟩ | ⟨h1, h2⟩ <;> simp [h1, h2] at hs <;> omega
   · left; exact hf
 
-/-- what the adder computes after the swap, as plain arithmetic on the fields (A = operand of larger magnitude, gap < 32):
-    alignment `mb3 = ⌊mB / 2^d⌋` (truncation), `mr = mA ± mb3` on 25 bits, normalisation by `c = clz(mr)`,
+/-- what the adder computes after the swap, as plain arithmetic on the fields (A = operand of larger magnitude), EVERY gap:
+    alignment `mb3 = ⌊mB / 2^d⌋` (truncation; 0 for d ≥ 24), `mr = mA ± mb3` on 25 bits, normalisation by `c = clz(mr)`,
     exponent `eA − c + 1` (mod 256), fraction = bits 23..1 of `mr · 2^c` (truncation, the rounding wires drive nothing) -/
-theorem fpadd_datapath (A B : Nat) (hA : 1 ≤ expOf A) (hB : 1 ≤ expOf B) (hle : expOf B ≤ expOf A)
-    (hgap : expOf A - expOf B < 32) :
+theorem fpadd_datapath (A B : Nat) (hA : 1 ≤ expOf A) (hB : 1 ≤ expOf B) (hle : expOf B ≤ expOf A) :
     let mA := 2^23 + fracOf A
     let mB := 2^23 + fracOf B
     let mb3 := mB / 2^(expOf A - expOf B)
     let mr : Nat := if signOf A = signOf B then (mA + mb3) % 2^25 else Leaf.sub 25 mA mb3
     let c : Nat := if mr = 0 then 25 else 24 - mr.log2
     fpaddCore A B = signOf A * 2^31 + ((((expOf A + 256 - c) % 256 + 1) % 256) * 2^23 + (mr * 2^c % 2^25) / 2 % 2^23) :=
-  fpaddCore_eq A B hA hB hle hgap
+  fpaddCore_eq A B hA hB hle
 
-/- FULL STATEMENT (FALSE of the current code for exponent gaps ≥ 32, see `fpadd_gap32_counterexample`):
-     ∀ a b, normal a → normal b → sumNormal a b → addOk a b (fpadd a b) = true
-       (addOk: result normal, sign of the exact sum, |decode r − (a+b)| < 2 ulp of the operand of larger magnitude)
-
-   PARTIAL STATEMENT under the forced hypothesis (complement of `FpSpec.gapClass`) — NOT YET PROVED, kept here at full strength:
-     theorem fpadd_sign_ulp_partial (a b : Nat) (ha : normal a = true) (hb : normal b = true) (hs : sumNormal a b = true)
-         (hg : gapClass a b = false) : addOk a b (fpadd a b) = true
-
-   What is proved towards it (all machine-checked, above / in Proofs/C13Add.lean):
-     * `fpadd_swap`      fpadd a b = fpaddCore (larger magnitude) (smaller magnitude), via `fpcmp_abs_fields`, `mag_lt_iff`
-     * `fpadd_datapath`  the swapped datapath as arithmetic on the fields for every gap < 32 (uses C07.shiftRight_logical_spec,
-                         add_spec, countLeadingZeros_spec, shiftLeft_spec, C08.concatMSBF_spec, xor2_bool)
-     * `fpadd_comm`      commutativity on the whole domain (every gap)
-   Missing lemmas (pure arithmetic on naturals; with U = 2^(eB−1), D = 2^d, rr = mB mod D, L = log2 mr, all 2^23 ≤ mA, mB < 2^24):
-     (a) `add_exact`   : |S| = (mr·D + rr)·U (equal signs, mr = mA + ⌊mB/D⌋)  resp.  |S| = (mr·D − rr)·U (opposite signs,
-                         mr = mA − ⌊mB/D⌋ ≥ 0 because mag B ≤ mag A), where S = sval A + sval B
-     (b) `norm_value`  : for 0 < mr < 2^25: L ≤ 23 ∧ eA + L ≥ 24 → mag r = mr·D·U;   L = 24 → mag r = (mr − mr mod 2)·D·U,
-                         with expOf r = eA + L − 23 (two `Nat.pow_add` splits, as in `fpmul_ulp'`)
-     (c) `exp_in_range`: sumNormal ⇒ mr ≠ 0 ∧ 1 ≤ eA + L − 23 ≤ 254 (by `pow_bound_lo/hi` as for the multiplier)
-     (d) sign: signOf r = signOf A = sign of S (S ≠ 0, mag B ≤ mag A) and the final |sval r − S| < 2·2^(eA−1) from (a),(b): the
-         error is rr·U < D·U for L ≤ 23 and ((mr mod 2)·D + rr)·U < 2·D·U for L = 24 (`signed_diff`-style case split on the signs).
-   Until then the claim for gap < 32 rests on the correspondence (model = real block on every input tried) plus the oracle
-   `FpSpec.addOk` evaluated in Lean on the real block's output bits (harness/c13.py), not on a theorem. -/
+/-- gaps of 24 or more: the smaller operand is shifted out completely -/
+theorem fpadd_datapath_far (mB d : Nat) (hm : mB < 2^24) (hd : 24 ≤ d) : mB / 2^d = 0 :=
+  Nat.div_eq_of_lt (Nat.lt_of_lt_of_le hm (Nat.pow_le_pow_right (by decide) hd))
 
 example : fpadd 0x3FC00000 0x40100000 = 0x40700000 ∧ fpadd 0x40100000 0x3FC00000 = 0x40700000
     ∧ addOk 0x3FC00000 0x40100000 0x40700000 = true := by decide +kernel       -- 1.5 + 2.25 = 3.75
